@@ -58,6 +58,22 @@ fn main() {
     run_main("C12", |ctx| {
         let a = model::iupac();
         let codes = a.codes();
+        // before anything else in the process: first use of the set operations from three threads at once
+        ctx.first_use_race(3, |t| {
+            let x: Seq<Iupac> = ["ACGTRYSWKMBDHVN-ACGTN", "NNNNACGT", "RYSWKMBDHVN-ACGT"][t % 3].try_into().unwrap();
+            let y: Seq<Iupac> = ["AAAAAAAAAAAAAAAA-NNNN", "ACGTACGT", "NNNNNNNNNNNNNNNN"][t % 3].try_into().unwrap();
+            let d: Seq<Dna> = "ACGTTGCA".try_into().unwrap();
+            (
+                (&x[..] | &y[..]).to_string(),
+                (&x[..] & &y[..]).to_string(),
+                x.contains(&y),
+                y.contains(&x),
+                x.to_comp().to_string(),
+                x.to_revcomp().to_string(),
+                Seq::<Iupac>::from(&d[..]).to_string(),
+                Iupac::items().map(|s| s.to_comp().to_bits()).collect::<Vec<u8>>(),
+            )
+        });
         ctx.group("iupac/all-256-symbol-pairs-at-every-position", |ctx| {
             // a 20-symbol window; every ordered symbol pair is placed at every position in turn,
             // the two operands sitting at independent offsets (16 x 16 combinations)
@@ -82,6 +98,22 @@ fn main() {
                     }
                 }
                 ctx.sample(|| json!({"operand_pads": [p1, p2], "pairs": "all 256 ordered symbol pairs, 20 per window"}));
+            }
+        });
+        ctx.group("iupac/exact-fit", |ctx| {
+            // both operands in allocations without spare words, windows ending at the end of the allocation
+            // (whole-word lengths, aligned and unaligned starts): an access to "the next word" leaves the allocation
+            for (k, (n, pad)) in exact_fit_cases_for(ctx, 4).into_iter().enumerate() {
+                if ctx.lite && !ctx.mine(k) {
+                    continue;
+                }
+                let _fit = exact_fit_mode();
+                let x = rand_codes(&mut ctx.rng, a, n);
+                let y: Vec<u8> = x.iter().map(|c| c & ctx.rng.byte()).collect();
+                let y2 = rand_codes(&mut ctx.rng, a, n);
+                ops(ctx, &x, &y, pad, pad, "exact-fit");
+                ops(ctx, &y2, &x, 0, pad, "exact-fit");
+                cell!(ctx, "iupac/exact-fit/{}/pad{}", len_class(4, n), pad % 16);
             }
         });
         ctx.group("iupac/random-longer", |ctx| {
